@@ -30,13 +30,21 @@ type c20Reg struct {
 	table, kind, text string
 }
 
-var c20CondTexts = []string{"a = :b", "b = :a", " a = :b ", "a  =  :b", "A = :b", "a = :bb", "a = :b AND b = :a", "b = :a AND a = :b"}
+var c20CondTexts = []string{"a = :b", "b = :a", " a = :b ", "a  =  :b", "A = :b", "a = :bb", "a = :b AND b = :a", "b = :a AND a = :b",
+	// requests only: the registered text with characters that are spaces for Unicode but not for the expression
+	// language (no-break space, em space, vertical tab, form feed, next line) - other texts, no registration answers
+	"a\u00a0=\u00a0:b", "\u2003a = :b", "a\v= :b", "a = :b\f", "a\u0085= :b"}
 
 // keyword texts in two letter cases: different texts (a registration under one never fires for the other). The
 // built-in interpreter refuses the lower-case forms, so without a callback such a request may also be rejected
 var c20KeywordTexts = []string{"a = :b AND b = :a", "a = :b and b = :a", "a IN (:b)", "a in (:b)", "a BETWEEN :b AND :b", "a between :b and :b"}
 
 func c20LowerKeyword(text string) bool {
+	for _, r := range text {
+		if r > 0x7e || r == '\v' || r == '\f' {
+			return true // a character that is no part of the language: refused like a keyword in lower case
+		}
+	}
 	for _, t := range tokenize(text) {
 		if refmodelIsKw(t) && t != strings.ToUpper(t) {
 			return true
@@ -191,8 +199,10 @@ func (p *c20) parallelClients(x *res, idx int, ctx *runner.Ctx) {
 	x.fp(true, "parallel|%d|%d", g, idx)
 }
 
-func normSurround(s string) string { return strings.TrimSpace(s) }
-func normAll(s string) string      { return strings.Join(strings.Fields(s), " ") }
+// whitespace of the expression language: space, tab, line feed, carriage return - nothing else
+func langSpace(r rune) bool         { return r == ' ' || r == '\t' || r == '\n' || r == '\r' }
+func normSurround(s string) string { return strings.TrimFunc(s, langSpace) }
+func normAll(s string) string      { return strings.Join(strings.FieldsFunc(s, langSpace), " ") }
 
 type nativeClient interface {
 	activate()
@@ -550,6 +560,7 @@ func (p *c20) RunCase(ctx *runner.Ctx) runner.CaseResult {
 	if ctx.Case >= seqCases {
 		if ctx.Case-seqCases < 2 {
 			p.interpreterSwap(x, adapt.Adapters[ctx.Case-seqCases], ctx)
+			p.noItemSearches(x, adapt.Adapters[ctx.Case-seqCases])
 			return x.r
 		}
 		p.parallelClients(x, ctx.Case-seqCases-2, ctx)
